@@ -4,7 +4,7 @@ CFG = dict(
               "C02.watermark_monotone", "C02.send_retry", "C02.facts_watermark", "C02.sliding_no_early_fire",
               "C02.session_no_early_delivery", "C02.session_drop_only_if_late", "C02.session_late_update", "C02.sliding_late_update_contents", "C02.sliding_every_open_window_redelivered",
               "C02.tumbling_no_early_fire_full", "C02.tumbling_no_early_fire_prefix", "C02.sliding_no_early_fire_full", "C02.session_no_early_delivery_full",
-              "C02.session_registered_kept", "C02.session_fired_registered", "C02.session_open_entry_redelivered", "C02.session_late_row_redelivered_run"],
+              "C02.session_registered_kept", "C02.session_fired_registered", "C02.session_open_entry_redelivered", "C02.session_late_row_redelivered_run", "C02.sliding_late_row_redelivered_run"],
     unproved=[],
     rule="tumbling (ALLOWEDLATENESS in {0,1,size/2,size,3size,20size}), sliding (lateness in {0,1,slide,3size}) and session (lateness in {0,1,timeout,5timeout,40timeout}; twin and ladder scenarios: several fired sessions of one key open for late rows at once) op sequences with late rows placed around "
          "MAXOUTOFORDERNESS and around window_end+ALLOWEDLATENESS, far-future and timestamp-less rows, lagging trigger (bursts of adds with undelivered watermarks), Adds in the unlock gap; distinct = distinct (cfg, op list)",
@@ -17,5 +17,5 @@ META = dict(
         "a row is discarded only if late and a discarded row changes nothing but watermark bookkeeping; a late row inside a triggered window whose allowance has not expired by the current watermark is answered by exactly one re-delivery of the same interval = last delivered contents ++ [row] (tumbling: proved over reachable states incl. the link to the last delivery; session: step-level); "
         "far-future timestamps leave the watermark state untouched; the watermark is monotone and undelivered values are re-offered (Lean theorems). "
         "Tied to the three window implementations by replay of generated op sequences (incl. lagging trigger) and by the declarative oracle with late-update, allowance and must-redeliver clauses.",
-   note="Trusted: Lean kernel; models tied by correspondence; Go mutex semantics; harness. sliding late updates are proved at step level (contents, every open covering window).",
+   note="Trusted: Lean kernel; models tied by correspondence; Go mutex semantics; harness. sliding and session late updates: contents at step level, must-redeliver for every reachable state (registration invariants Proofs/SlidingLateRun, Proofs/SessionLate).",
 )
